@@ -4,7 +4,9 @@ Level "other". Proved in Coq (Properties/C10.v over Model/DefaultBuilder.v, unbo
 generated Vec actions (push for the left-recursive alternative, insert(0, ..) for the right-recursive one,
 production.rs:344-419) return the elements of EVERY derivation of a vector rule in input order. The model is
 tied to the real generated actions every run (build_vec of the derivation = the literal sequence of the real
-value). Only the Vec actions are modelled; the property as a whole (all type shapes, Option/None, GLR replay,
+value). Also proved (Model/DefaultAst.v, not run against the code): `ast_tokens_compositional` and
+`std_actions_keep_order_partial` — every action-body shape the generator writes keeps its arguments' literals in
+order, hence so does the value of any derivation tree. The type deduction is not modelled; the property as a whole (all type shapes, Option/None, GLR replay,
 loc_info) is an exploration of the real generated code against the real generic parse tree:
 
 Batch crates (gen/batch.py) with the DEFAULT builder — generator run from build.rs, rustc compiles parser
@@ -397,9 +399,14 @@ def run(rep, tier, seed):
     rep.coverage = dict(
         explanation="proved in Coq: vec_in_order (the generated Vec actions return the elements of every derivation "
                     "of a vector rule in input order, both recursion directions), tied to the real values each run; "
-                    "only the Vec actions are modelled — the general theorem ast_tokens of DESIGN.md (all type shapes, "
-                    "Option/None, GLR replay) was not reached, so the property as a whole is explored on the real "
-                    "generated builders against the real generic parse tree of the same input",
+                    "ast_tokens_compositional (Model/DefaultAst.v: if every production action keeps the literals of "
+                    "its arguments in order, the value of ANY derivation tree holds exactly the content tokens in "
+                    "input order) and std_actions_keep_order_partial (every action body shape the generator writes "
+                    "— struct, enum variant, (boxed) reference, Some/None, vec![], push, insert(0,..) — meets that "
+                    "obligation when its argument list fits the kind). NOT modelled: that the type deduction always "
+                    "picks a fitting kind and drops exactly the no-content terminals, GLR replay, loc_info — so the "
+                    "property as a whole is explored on the real generated builders against the real generic parse "
+                    "tree of the same input (DefaultAst.v itself is not run against the code; only build_vec is)",
         obligations=len((rep.theorems or {}).get("theorems", [])), discharged=(rep.theorems or {}).get("closed", 0),
         theorems=(rep.theorems or {}).get("theorems", []),
         vec_model_correspondence=dict(values_compared=n_model, right_recursive=n_model_rev),
